@@ -31,7 +31,7 @@ func init() {
 	const lowerFn = "func lowerASCII(b []byte) []byte {\n\tfor i, c := range b {\n\t\tif 'A' <= c && c <= 'Z' {\n\t\t\tb[i] = c + ('a' - 'A')\n\t\t}\n\t}\n\treturn b\n}\n\n"
 	const unm = "func (m *clientHelloMsg) unmarshal("
 	imp := func(pkgs string) repl { return repl{"import \"errors\"\n", "import (\n\t\"errors\"\n" + pkgs + ")\n"} }
-	addRound4("C09", "(M1) bytes in transit are not modified: between the read that fills a buffer from one side of a tunnel (Read, io.ReadFull of the ClientHello, the websocket handshake read) and the Write that relays that buffer to the other side, nothing in the tunnel's region writes into the buffer's backing array - no element store, copy, append in place or in-place library call, directly or in a helper that is handed (a slice of) the buffer, e.g. the ClientHello parser; a parser that normalises in place changes the bytes the upstream receives (a rewritten server_name breaks the TLS transcript: bad record MAC).", runC09M1,
+	addRound4("C09", "(M1) bytes in transit are not modified: between the read that fills a buffer from one side of a tunnel (Read, io.ReadFull of the ClientHello, the websocket handshake read) and the Write that relays that buffer to the other side, nothing in the tunnel's region writes into the buffer's backing array - no element store, copy, append in place or in-place library call, directly or in a helper that is handed (a slice of) the buffer, e.g. the ClientHello parser (a helper with several callers counts at the calls that hand it this buffer, not at those that hand it another one); a parser that normalises in place changes the bytes the upstream receives (a rewritten server_name breaks the TLS transcript: bad record MAC).", runC09M1, c09devFilter(
 		mutant{Name: "SNI name lower-cased in place by a helper that returns its argument (seed 7)", File: hello,
 			Old: name, New: "\t\t\t\t\tm.serverName = string(lowerASCII(d[:nameLen]))\n", More: []repl{{unm, lowerFn + unm}}, Expect: "C09.M1"},
 		mutant{Name: "SNI name lower-cased in place by a loop inside the parser", File: hello,
@@ -66,14 +66,14 @@ func init() {
 			Old: "\terrc := make(chan error, 2)\n", New: "\tclear(data)\n\terrc := make(chan error, 2)\n", Expect: ""},
 		mutant{Name: "benign: the copy loop scrubs its buffer after the write, before the next read", File: cpb,
 			Old: "\t\tif er != nil {\n\t\t\tif er != io.EOF {", New: "\t\tclear(buf)\n\t\tif er != nil {\n\t\t\tif er != io.EOF {", Expect: ""},
-	)
+	)...)
 	const rd1 = "\t\tn, err := out.Read(b)\n\t\tif err != nil {\n\t\t\tlog.Printf(\"[ERROR] Error reading handshake for %s: %s\", r.URL, err)\n\t\t\thttp.Error(w, \"error reading handshake\", http.StatusInternalServerError)\n\t\t\treturn\n\t\t}\n"
 	fail := "\t\t\tif err != nil {\n\t\t\t\tlog.Printf(\"[ERROR] Error reading handshake for %s: %s\", r.URL, err)\n\t\t\t\thttp.Error(w, \"error reading handshake\", http.StatusInternalServerError)\n\t\t\t\treturn\n\t\t\t}\n"
 	const crlf = "[]byte(\"\\r\\n\\r\\n\")"
 	loop := func(head, pre, post string) string {
 		return "\t\tn := 0\n\t\tfor " + head + " {\n" + pre + "\t\t\tm, err := out.Read(b[n:])\n" + fail + "\t\t\tn += m\n" + post + "\t\t}\n"
 	}
-	addRound4("C09", "(P1) a read loop that collects a message in a fixed buffer ends when the buffer is full: where a Read in a loop of a tunnel's region fills a window buf[n:] (or a buffer re-sliced to its rest) that shrinks with every iteration, the loop has an exit that compares the fill level / the remaining room with a bound, or the count the Read returned with a constant; net.Conn.Read and tls.Conn.Read return (0, nil) at once for an empty buffer whatever the read deadline, so without that exit a websocket handshake response longer than the buffer makes the handler spin forever and neither the response nor any later byte is delivered.", runC09P1,
+	addRound4("C09", "(P1) a read loop that collects a message in a fixed buffer ends when the buffer is full: where a Read in a loop of a tunnel's region fills a window buf[n:] (or a buffer re-sliced to its rest) that shrinks with every iteration, the loop has an exit that compares the fill level / the remaining room with a bound, or the count the Read returned with a constant (the comparison itself, a boolean computed from it with || / &&, or a predicate helper that is handed the level and compares it); net.Conn.Read and tls.Conn.Read return (0, nil) at once for an empty buffer whatever the read deadline, so without that exit a websocket handshake response longer than the buffer makes the handler spin forever and neither the response nor any later byte is delivered.", runC09P1, c09devFilter(
 		mutant{Name: "handshake read loops until the blank line with no room check (seed 8)", File: ws,
 			Old: rd1, New: loop("!bytes.Contains(b[:n], "+crlf+")", "", ""), Expect: "C09.P1"},
 		mutant{Name: "handshake read loop with the end test after the read, no room check", File: ws,
@@ -101,7 +101,7 @@ func init() {
 			Old:    rd1,
 			New:    "\t\tn := 0\n\t\tfor rest := b; len(rest) > 0 && !bytes.Contains(b[:n], " + crlf + "); rest = b[n:] {\n\t\t\tm, err := out.Read(rest)\n" + fail + "\t\t\tn += m\n\t\t}\n",
 			Expect: ""},
-	)
+	)...)
 }
 
 // ---- tunnels, buffers ---------------------------------------------------------------------------------------------
@@ -150,16 +150,28 @@ func c09isByteBuf(t types.Type) bool {
 
 // c09backing: the backing arrays v may be a view of: the identity roots of v (c09_flow.go), continued through slice
 // expressions (b[i:j] shares b's array) and through append (the result may still be its first argument's array).
-func c09backing(v ssa.Value) map[c09key]ssa.Value {
+func c09backing(v ssa.Value) map[c09key]ssa.Value { return c09backingBound(v, nil) }
+
+// c09backingBound: c09backing in the context of ONE call: the parameters in bind denote only the arguments listed for
+// them (the other parameters denote what all their call sites pass, as always).
+func c09backingBound(v ssa.Value, bind map[*ssa.Parameter][]ssa.Value) map[c09key]ssa.Value {
 	out := map[c09key]ssa.Value{}
 	seen := map[ssa.Value]bool{}
+	roots := func(v ssa.Value) map[c09key]ssa.Value {
+		w := c09newWalker()
+		for p, as := range bind {
+			w.bind[p] = as
+		}
+		w.walk(v)
+		return w.roots
+	}
 	var rec func(v ssa.Value, d int)
 	rec = func(v ssa.Value, d int) {
 		if v == nil || seen[v] || d > 64 {
 			return
 		}
 		seen[v] = true
-		for k, r := range c09roots(v) {
+		for k, r := range roots(v) {
 			switch x := r.(type) {
 			case *ssa.Slice:
 				rec(x.X, d+1)
@@ -208,6 +220,14 @@ func c09sendBuf(i ssa.Instruction) ssa.Value {
 	}
 	if _, args, ok := c09ioCall(&call.Call, "Write"); ok && len(args) == 1 && c09isByteSlice(args[0].Type()) {
 		return args[0]
+	}
+	// io.Copy(dst, bytes.NewReader(buf)) sends buf
+	if n := calleeName(&call.Call); c09copyFns[n] && len(call.Call.Args) >= 2 {
+		for _, rv := range c09roots(call.Call.Args[1]) {
+			if nr, ok := rv.(*ssa.Call); ok && len(nr.Call.Args) == 1 && (calleeName(&nr.Call) == "bytes.NewReader" || calleeName(&nr.Call) == "bytes.NewBuffer") && c09isByteSlice(nr.Call.Args[0].Type()) {
+				return nr.Call.Args[0]
+			}
+		}
 	}
 	return nil
 }
@@ -347,12 +367,40 @@ func c09lift(pred func(ssa.Instruction) bool) func(ssa.Instruction) bool {
 	}
 }
 
+// c09bindAt: the parameters of the repository function(s) called at j -> the arguments of j.
+func c09bindAt(j ssa.Instruction) map[*ssa.Parameter][]ssa.Value {
+	call, ok := j.(*ssa.Call)
+	if !ok || call.Call.IsInvoke() {
+		return nil
+	}
+	var fns []*ssa.Function
+	if sc := c09bodyOf(&call.Call); sc != nil {
+		fns = append(fns, sc)
+		if u := unwrap(sc); u != sc {
+			fns = append(fns, u)
+		}
+	} else if call.Call.StaticCallee() == nil {
+		fns = funcsOf(call.Call.Value)
+	}
+	bind := map[*ssa.Parameter][]ssa.Value{}
+	for _, g := range fns {
+		if len(g.Params) != len(call.Call.Args) {
+			continue
+		}
+		for k, p := range g.Params {
+			bind[p] = append(bind[p], call.Call.Args[k])
+		}
+	}
+	return bind
+}
+
 // ---- M1 -----------------------------------------------------------------------------------------------------------
 
 func runC09M1(c *Ctx) {
 	type site struct {
 		at   ssa.Instruction
 		back map[c09key]ssa.Value
+		buf  ssa.Value
 	}
 	done := map[ssa.Instruction]bool{}
 	nTransit := 0
@@ -361,17 +409,17 @@ func runC09M1(c *Ctx) {
 		var fills, sends, muts []site
 		eachInstrOf(t.reg, func(f *ssa.Function, i ssa.Instruction) {
 			if b := c09fillBuf(i); b != nil {
-				fills = append(fills, site{i, c09backing(b)})
+				fills = append(fills, site{i, c09backing(b), b})
 				return // the fill is the legitimate writer of the buffer
 			}
 			if b := c09sendBuf(i); b != nil {
-				sends = append(sends, site{i, c09backing(b)})
+				sends = append(sends, site{i, c09backing(b), b})
 			}
 			if call, ok := i.(*ssa.Call); ok && c09forwardingRead(f, call) {
 				return // the Read method of a reader object fills its caller's buffer
 			}
 			for _, b := range c09writesInto(i) {
-				muts = append(muts, site{i, c09backing(b)})
+				muts = append(muts, site{i, c09backing(b), b})
 			}
 		})
 		if os.Getenv("C09_DEBUG") != "" {
@@ -434,7 +482,9 @@ func runC09M1(c *Ctx) {
 						if liftFill(j) {
 							as = append(as, j)
 						}
-						if liftMut(j) {
+						if liftMut(j) && (j == m.at || c09meet(c09backingBound(m.buf, c09bindAt(j)), fl.back)) {
+							// (a helper that writes into its parameter writes into THIS buffer at the calls that hand it
+							// this buffer, not at its other calls)
 							ms = append(ms, j)
 						}
 						if liftSend(j) {
@@ -517,6 +567,98 @@ func c09dependsOn(v ssa.Value, pred func(ssa.Value) bool) bool {
 		return false
 	}
 	return rec(v, 0)
+}
+
+// c09levelCmp: v is an integer comparison one side of which depends on the fill level (level), or that compares the
+// count the read returned (isCount) with a constant.
+func c09levelCmp(v ssa.Value, level, isCount func(ssa.Value) bool) bool {
+	cmp, ok := v.(*ssa.BinOp)
+	if !ok {
+		return false
+	}
+	switch cmp.Op {
+	case token.LSS, token.LEQ, token.GTR, token.GEQ, token.EQL, token.NEQ:
+	default:
+		return false
+	}
+	if bt, ok := cmp.X.Type().Underlying().(*types.Basic); !ok || bt.Info()&types.IsInteger == 0 {
+		return false
+	}
+	_, kx := cmp.X.(*ssa.Const)
+	_, ky := cmp.Y.(*ssa.Const)
+	switch {
+	case c09dependsOn(cmp.X, level) || c09dependsOn(cmp.Y, level):
+		return true // fill level / remaining room against a bound
+	case isCount != nil && ((isCount(cmp.X) && ky) || (isCount(cmp.Y) && kx)):
+		return true // a read that returned nothing leaves the loop
+	}
+	return false
+}
+
+// c09levelTest: the condition of an exit branch of the loop tests the fill level. cond is
+//   - such a comparison (c09levelCmp), possibly negated;
+//   - a verdict kept in a boolean (`done := n >= len(b) || found`, a `case` with several conditions): a merge of
+//     constants and conditions - an edge that carries the constant with which the branch LEAVES the loop
+//     (exitOnTrue) comes from the branch on one operand of the || / &&: that operand is a level test; an edge that
+//     carries a computed condition: that condition is;
+//   - the result of a repository predicate (`full(b, n)`, `s.hasRoom()` is out of reach: a field) that is handed a
+//     value depending on the fill level and compares what it was handed (integer comparison) on the way to its result.
+func c09levelTest(cond ssa.Value, exitOnTrue bool, level, isCount func(ssa.Value) bool, depth int) bool {
+	if depth > 4 {
+		return false
+	}
+	for k := 0; k < 3; k++ {
+		if u, ok := cond.(*ssa.UnOp); ok && u.Op == token.NOT {
+			cond, exitOnTrue = u.X, !exitOnTrue
+		}
+	}
+	switch x := cond.(type) {
+	case *ssa.BinOp:
+		return c09levelCmp(x, level, isCount)
+	case *ssa.Phi:
+		for k, e := range x.Edges {
+			if kb, isK := constBool(e); isK {
+				if kb != exitOnTrue || k >= len(x.Block().Preds) {
+					continue
+				}
+				p := x.Block().Preds[k]
+				if n := len(p.Instrs); n > 0 {
+					// the operand of the || / && that decided (a || b yields true on a's true edge, a && b false on
+					// a's false edge)
+					if iff, ok := p.Instrs[n-1].(*ssa.If); ok && c09levelTest(iff.Cond, true, level, isCount, depth+1) {
+						return true
+					}
+				}
+				continue
+			}
+			if c09levelTest(e, exitOnTrue, level, isCount, depth+1) {
+				return true
+			}
+		}
+	case *ssa.Call:
+		callee := c09bodyOf(&x.Call)
+		if callee == nil {
+			return false
+		}
+		callee = unwrap(callee)
+		for k, a := range x.Call.Args {
+			if k >= len(callee.Params) || !(c09dependsOn(a, level) || (isCount != nil && isCount(a))) {
+				continue
+			}
+			p := ssa.Value(callee.Params[k])
+			inner := func(v ssa.Value) bool { return v == p }
+			hit := false
+			eachInstr(callee, func(i ssa.Instruction) {
+				if v, ok := i.(ssa.Value); ok && c09levelCmp(v, inner, nil) {
+					hit = true
+				}
+			})
+			if hit {
+				return true
+			}
+		}
+	}
+	return false
 }
 
 func runC09P1(c *Ctx) {
@@ -603,31 +745,8 @@ func runC09P1(c *Ctx) {
 						if !ok {
 							continue
 						}
-						cond := iff.Cond
-						for k := 0; k < 3; k++ {
-							if u, ok := cond.(*ssa.UnOp); ok && u.Op == token.NOT {
-								cond = u.X
-							}
-						}
-						cmp, ok := cond.(*ssa.BinOp)
-						if !ok {
-							continue
-						}
-						switch cmp.Op {
-						case token.LSS, token.LEQ, token.GTR, token.GEQ, token.EQL, token.NEQ:
-						default:
-							continue
-						}
-						if bt, ok := cmp.X.Type().Underlying().(*types.Basic); !ok || bt.Info()&types.IsInteger == 0 {
-							continue
-						}
-						_, kx := cmp.X.(*ssa.Const)
-						_, ky := cmp.Y.(*ssa.Const)
-						switch {
-						case c09dependsOn(cmp.X, level) || c09dependsOn(cmp.Y, level):
-							guarded = true // fill level / remaining room against a bound
-						case (isCount(cmp.X) && ky) || (isCount(cmp.Y) && kx):
-							guarded = true // a read that returned nothing leaves the loop
+						if c09levelTest(iff.Cond, !l.Body[b.Succs[0]], level, isCount, 0) {
+							guarded = true
 						}
 					}
 					name := fnKey(g)
